@@ -141,6 +141,142 @@ theorem external_and_parameter_entities_dropped :
     (replaceDoctype "<!DOCTYPE r [\n<!ENTITY x SYSTEM \"file:///etc/passwd\">\n<!ENTITY % p \"q\">\n<!ENTITY ok \"fine\">\n]>\n<r/>".toList).entities
       = [("ok".toList, "fine".toList)] := by decide +kernel
 
+/-! ### the prolog scanner (`_first_element_offset`, fix: e7e48c9): what is inside a comment or a processing instruction is never taken for the first element -/
+
+/-- the scan for the comment terminator passes over any text without `>` -/
+theorem dropThrough_comment (c t : Str) (hc : ∀ x ∈ c, x ≠ '>') :
+    dropThrough "-->".toList (c ++ "-->".toList ++ t) = t := by
+  induction c with
+  | nil => simp [dropThrough, startsWith]
+  | cons x c ih =>
+    have hx : x ≠ '>' := hc x (by simp)
+    have hc' : ∀ y ∈ c, y ≠ '>' := fun y hy => hc y (by simp [hy])
+    have hno : startsWith "-->".toList (x :: (c ++ "-->".toList ++ t)) = false := by
+      match c, hc' with
+      | [], _ => simp [startsWith]
+      | [a], _ => simp [startsWith]
+      | a :: b :: c'', h =>
+        have hb : b ≠ '>' := h b (by simp)
+        simp [startsWith, hb]
+    show dropThrough "-->".toList (x :: (c ++ "-->".toList ++ t)) = t
+    rw [dropThrough, hno]
+    exact ih hc'
+
+/-- …and the scan for the end of a processing instruction likewise -/
+theorem dropThrough_pi (c t : Str) (hc : ∀ x ∈ c, x ≠ '>') :
+    dropThrough "?>".toList (c ++ "?>".toList ++ t) = t := by
+  induction c with
+  | nil => simp [dropThrough, startsWith]
+  | cons x c ih =>
+    have hc' : ∀ y ∈ c, y ≠ '>' := fun y hy => hc y (by simp [hy])
+    have hno : startsWith "?>".toList (x :: (c ++ "?>".toList ++ t)) = false := by
+      match c, hc' with
+      | [], _ => simp [startsWith]
+      | a :: c'', h =>
+        have ha : a ≠ '>' := h a (by simp)
+        simp [startsWith, ha]
+    show dropThrough "?>".toList (x :: (c ++ "?>".toList ++ t)) = t
+    rw [dropThrough, hno]
+    exact ih hc'
+
+/-- WHATEVER a comment contains (tags, `<rss …>`, a DOCTYPE, entity declarations — anything without `>`; with `>` the comment simply ends earlier for the
+scanner exactly as it does for XML), the first element is looked for AFTER it: the comment's text has no influence on where the filter's head ends.  (Before
+the fix: commit the pattern `<\w` stopped at the first tag-like text inside the comment and the DOCTYPE behind it went to expat unfiltered.) -/
+theorem comment_is_skipped (n : Nat) (c t : Str) (hc : ∀ x ∈ c, x ≠ '>') :
+    firstElemRest (n + 1) ("<!--".toList ++ c ++ "-->".toList ++ t) = firstElemRest n t := by
+  have h0 : "<!--".toList ++ c ++ "-->".toList ++ t = '<' :: '!' :: '-' :: '-' :: (c ++ "-->".toList ++ t) := by simp
+  rw [h0, firstElemRest]
+  simp only [List.dropWhile, bne_self_eq_false]
+  have hs : startsWith "<!--".toList ('<' :: '!' :: '-' :: '-' :: (c ++ "-->".toList ++ t)) = true := by simp [startsWith]
+  simp only [hs, ↓reduceIte, List.drop]
+  rw [dropThrough_comment c t hc]
+
+/-- the same for a processing instruction (`<?php echo '<rss>' ?>`) -/
+theorem pi_is_skipped (n : Nat) (c t : Str) (hc : ∀ x ∈ c, x ≠ '>') :
+    firstElemRest (n + 1) ("<?".toList ++ c ++ "?>".toList ++ t) = firstElemRest n t := by
+  have h0 : "<?".toList ++ c ++ "?>".toList ++ t = '<' :: '?' :: (c ++ "?>".toList ++ t) := by simp
+  rw [h0, firstElemRest]
+  simp only [List.dropWhile, bne_self_eq_false]
+  have hs1 : startsWith "<!--".toList ('<' :: '?' :: (c ++ "?>".toList ++ t)) = false := by
+    cases c with
+    | nil => simp [startsWith]
+    | cons a c' => cases c' <;> simp [startsWith]
+  have hs2 : startsWith "<?".toList ('<' :: '?' :: (c ++ "?>".toList ++ t)) = true := by simp [startsWith]
+  simp only [hs1, hs2, Bool.false_eq_true, ↓reduceIte, List.drop]
+  rw [dropThrough_pi c t hc]
+
+/-- the scan for the closing quote passes over anything but that quote -/
+theorem dropThrough_quote (q : Char) (lit t : Str) (hq : ∀ x ∈ lit, x ≠ q) : dropThrough [q] (lit ++ q :: t) = t := by
+  induction lit with
+  | nil => simp [dropThrough, startsWith]
+  | cons x l ih =>
+    have hx : x ≠ q := hq x (by simp)
+    have hl : ∀ y ∈ l, y ≠ q := fun y hy => hq y (by simp [hy])
+    show dropThrough [q] (x :: (l ++ q :: t)) = t
+    rw [dropThrough]
+    have : startsWith [q] (x :: (l ++ q :: t)) = false := by simp [startsWith, hx]
+    rw [this]
+    exact ih hl
+
+/-- inside a declaration (`<!DOCTYPE … SYSTEM "x<y>z" …>`) a quoted literal is passed over as a whole, WHATEVER it contains — `>`, `<b`, `]`, `<!--` —:
+the declaration does not end inside it and nothing in it is taken for markup -/
+theorem literal_is_skipped (n : Nat) (depth : Int) (lit t : Str) (hq : ∀ x ∈ lit, x ≠ '"') :
+    skipDecl (n + 1) depth ('"' :: (lit ++ '"' :: t)) = skipDecl n depth t := by
+  rw [skipDecl]
+  simp only [beq_self_eq_true, Bool.true_or, ↓reduceIte]
+  rw [dropThrough_quote '"' lit t hq]
+
+theorem dropWhile_head_false (p : Char → Bool) : ∀ (s : Str) (c : Char) (r : Str), s.dropWhile p = c :: r → p c = false := by
+  intro s
+  induction s with
+  | nil => intro c r h; simp at h
+  | cons x xs ih =>
+    intro c r h
+    by_cases hp : p x = true
+    · rw [List.dropWhile_cons_of_pos hp] at h; exact ih c r h
+    · rw [List.dropWhile_cons_of_neg hp] at h
+      cases h
+      simpa using hp
+
+/-- what the scanner answers IS a start tag: `<` followed by a word character -/
+theorem firstElemRest_is_a_tag : ∀ (n : Nat) (s rest : Str), firstElemRest n s = some rest → ∃ d r, rest = '<' :: d :: r ∧ wordc d = true := by
+  intro n
+  induction n with
+  | zero => intro s rest h; simp [firstElemRest] at h
+  | succ n ih =>
+    intro s rest h
+    rw [firstElemRest] at h
+    split at h
+    · cases h
+    · rename_i c r heq
+      have hc : c = '<' := by
+        have := dropWhile_head_false (· != '<') s c r heq
+        simpa using this
+      split at h
+      · exact ih _ _ h
+      · split at h
+        · exact ih _ _ h
+        · split at h
+          · exact ih _ _ h
+          · split at h
+            · split at h
+              · cases h
+                exact ⟨_, _, by rw [hc], by assumption⟩
+              · exact ih _ _ h
+            · cases h
+
+def commentBeforeDoctype : Str :=
+  "<?xml version=\"1.0\"?><!-- see <b>markup</b> --><!DOCTYPE rss [<!ENTITY a \"AAAA\"><!ENTITY b \"&a;&a;&a;\">]><rss><channel><title>&b;</title></channel></rss>".toList
+
+/-- the layout that bypassed the filter before fix: e7e48c9 (tag-like text in a comment in front of the DOCTYPE): the nested entity `b` is dropped -/
+theorem comment_markup_layout_contained :
+    (replaceDoctype commentBeforeDoctype).entities = [("a".toList, "AAAA".toList)] ∧
+    (replaceDoctype commentBeforeDoctype).data =
+      "<?xml version=\"1.0\"?><!-- see <b>markup</b> --><!DOCTYPE feed [\n<!ENTITY a \"AAAA\">\n]><rss><channel><title>&b;</title></channel></rss>".toList := by
+  decide +kernel
+
+example : firstElemRest 9 ("<!--".toList ++ " <b x".toList ++ "-->".toList ++ "<r/>".toList) = some "<r/>".toList := by decide +kernel
+
 example : safeMatch " e1 \"&e0;&e0;\"".toList = none := by decide +kernel
 example : (replaceDoctype "no markup".toList).data = "no markup".toList := by decide +kernel
 
